@@ -242,10 +242,12 @@ type Sentence struct {
 	Body       Expr
 	Raw        string
 	Line       int
+	Err        string // parse error (Kind == "unparsed")
 }
 
 type File struct {
 	Sentences []Sentence
 	Defs      map[string]*Sentence // last definition of each name
 	Order     []string             // definition names in file order
+	Bad       []Sentence           // sentences that do not parse
 }
